@@ -229,3 +229,45 @@ Theorem C16_blank_insertion_columns : forall lx file u w v T L,
     scan lx file (u ++ w ++ v ++ [10%Z]) =
       ScanOk (O ++ map (colshift_tok (length u + length w)) N) (first_fwd (u ++ w) Ls).
 Proof. exact blank_insertion_results. Qed.
+
+(** THE LINK from token streams to output.  Two texts whose scans yield the same tokens — types and
+    values of ALL tokens, comment tokens included, at any positions — assemble alike: same blocks,
+    labels and every symbol value of the final resolver state, the same scan/parse error, the same
+    exception kind (parser, code generation and passes never read positions; included files
+    allowed).  This carries blank lines, indentation, trailing blanks, blanks inside lines and line
+    breaks between tokens through to the output.  For layouts that add or remove COMMENT tokens the
+    parser matters: it drops them only at statement boundaries and there is no end-of-line token,
+    so a comment line between `lda #1` and a next line `+2` (which CONTINUES the statement: the two
+    lines assemble as `lda #1+2`) is not "between statements" and changes the parse
+    (Proofs/LayoutLink.v, comment_line_is_not_invisible).  Comment blocks in front of a text are
+    invisible unconditionally; between lines under the explicit hypothesis that the two token lists
+    parse alike (partial: no static sufficient condition is proved). *)
+From A816 Require Import Proofs.LocationTextSim Proofs.LayoutLink.
+Theorem C16_layout_link : forall t fs c f s1 s2 toks1 l1 toks2 l2,
+  scan (lv_lex t) f s1 = ScanOk toks1 l1 -> scan (lv_lex t) f s2 = ScanOk toks2 l2 -> tvs toks1 = tvs toks2 ->
+  result_same_up_to_positions (assemble_source t fs c f s1) (assemble_source t fs c f s2).
+Proof. exact layout_link. Qed.
+Theorem C16_blank_lines_assemble : forall t fs c f a w b ta ea la,
+  lexicon_ok (lv_lex t) = true -> ends_nl a -> scan (lv_lex t) f a = ScanOk (ta ++ [ea]) la ->
+  all_blank w -> ends_nl w ->
+  result_same_up_to_positions (assemble_source t fs c f (a ++ w ++ b)) (assemble_source t fs c f (a ++ b)).
+Proof. exact blank_lines_assemble. Qed.
+Theorem C16_symbols_equal : forall r r', rrel sameTV r r' ->
+  map s_symbols (r_scopes r) = map s_symbols (r_scopes r') /\ map s_labels (r_scopes r) = map s_labels (r_scopes r') /\
+  map s_parent (r_scopes r) = map s_parent (r_scopes r') /\ r_pc r = r_pc r' /\ r_reloc r = r_reloc r'.
+Proof. exact srel_symbols. Qed.
+Theorem C16_line_replacement_assemble : forall t fs c f a l1 l2 b ta ea la t1 e1 ls1 t2 e2 ls2,
+  lexicon_ok (lv_lex t) = true ->
+  ends_nl a -> scan (lv_lex t) f a = ScanOk (ta ++ [ea]) la ->
+  ends_nl l1 -> scan (lv_lex t) f l1 = ScanOk (t1 ++ [e1]) ls1 ->
+  ends_nl l2 -> scan (lv_lex t) f l2 = ScanOk (t2 ++ [e2]) ls2 ->
+  Forall (fun x => t_type x <> T_COMMENT) t1 -> Forall (fun x => t_type x <> T_COMMENT) t2 ->
+  sig t1 = sig t2 ->
+  result_same_up_to_positions (assemble_source t fs c f (a ++ l1 ++ b)) (assemble_source t fs c f (a ++ l2 ++ b)).
+Proof. exact line_replacement_assemble. Qed.
+Theorem C16_comment_block_at_top_assemble : forall t fs c f blk b tb eb lb,
+  lexicon_ok (lv_lex t) = true ->
+  ends_nl blk -> scan (lv_lex t) f blk = ScanOk (tb ++ [eb]) lb ->
+  Forall (fun x => t_type x = T_COMMENT) tb ->
+  result_same_up_to_positions (assemble_source t fs c f b) (assemble_source t fs c f (blk ++ b)).
+Proof. exact comment_block_at_top_assemble. Qed.
